@@ -173,6 +173,27 @@ reg("C20", "exploration",
     "blocks validate and their kernel signatures verify; aggsig sign/verify round trips and refusals.",
     "secp256k1-zkp internals are the trusted base. One recorded known finding (view keys cannot rewind Regular-switch outputs: unimplemented upstream).")
 
+reg("C16", "exploration",
+    "reference-model monitor for segment soundness (MMR by definition + dependency analysis of what a segment's root depends on) + full-sync differential for state sync from segments / archive, with hostile material",
+    "Store level: protocol-faithful pruned/compacted MMRs; every (height 0..6, idx) segment must validate against the reference root, and 11 "
+    "single-element corruption classes of the parts the root depends on must fail. Chain level: headers-only receivers assemble the state of "
+    "45-104 block sources (some compacted) through the real Segmenter/Desegmenter with lowered segment heights in 6 arrival-order classes "
+    "(duplicates, early segments, interleaved trees) and through the zip archive; the result must equal the source at the archive header "
+    "and the replayed ledger (head, roots, sizes, unspent set, sums), pass validate and follow to the tip. Hostile segments and 18 hostile "
+    "archive classes must be refused or end in a failed finalisation: a finalised state whose roots (recomputed over the data the node holds) "
+    "differ from the archive header is the violation.",
+    "The harness requests segment identifiers itself (the request scheduler is outside the statement). Redundant extra hashes are observed only, as the statement says.")
+
+reg("C17", "exploration",
+    "offline checker over recorded histories (HeadMove/HeaderHeadMove event logs, per-thread observations) + end-state differential, under seeded scheduler perturbation; hang watchdog with gdb backtraces; ThreadSanitizer tier",
+    "One real Chain shared by 3-6 peer threads (competing forks, header-first, duplicates, orphans) and 3-7 reader / template / validate / "
+    "compactor / segmenter threads behind a barrier, sched_point perturbation at lock and commit points with a per-run seed; 270 (quick) / "
+    "~2700 (thorough) runs. Readers: head always names a stored block, observed work never decreases, head+roots+sizes read under one lock "
+    "equal the reference ledger's commitments, block templates carry reference roots; event logs form a chain of strictly increasing work to "
+    "accepted stored blocks; end state == unique max-work block == replayed reference == sequentially fed node, validate(false). No progress "
+    "for 60 s -> all-thread gdb backtraces, re-run; only a reproduced hang is a violation. Thorough adds a TSan build (any report with a /repo frame is a violation).",
+    "Schedules the OS scheduler plus perturbation never produce are out of reach; at most 14 threads per run.")
+
 NOT_READY_REASON = "check under construction in this session (design in DESIGN.md section 3); not yet claimed"
 
 def main():
